@@ -27,3 +27,48 @@ Definition charge_parity (ch : option (list bool)) (S : Z -> bool) (n : Z) : boo
 (* S is a union of connected components: no edge leaves S *)
 Definition closed_under_edges (S : Z -> bool) (E : list (Z * Z)) : Prop :=
   forall e, In e E -> S (fst e) = S (snd e).
+
+(* ---------- executable notions used only in the unproved full statements and in examples ---------- *)
+(* connected components by label propagation: every vertex starts with its own number, one round
+   gives both ends of every edge the smaller label; n rounds suffice; a component is counted at the
+   vertex that keeps its own number *)
+Fixpoint set_nth (l : list Z) (i : nat) (x : Z) : list Z :=
+  match l, i with
+  | [], _ => []
+  | _ :: t, O => x :: t
+  | y :: t, S j => y :: set_nth t j x
+  end.
+Definition relax_edge (lab : list Z) (e : Z * Z) : list Z :=
+  let iu := Z.to_nat (fst e - 1) in
+  let iw := Z.to_nat (snd e - 1) in
+  let m := Z.min (nth iu lab 0) (nth iw lab 0) in
+  set_nth (set_nth lab iu m) iw m.
+Fixpoint relax_rounds (fuel : nat) (E : list (Z * Z)) (lab : list Z) : list Z :=
+  match fuel with
+  | O => lab
+  | S f => relax_rounds f E (fold_left relax_edge E lab)
+  end.
+Definition component_labels (n : Z) (E : list (Z * Z)) : list Z := relax_rounds (Z.to_nat n) E (rng n).
+Definition num_components (n : Z) (E : list (Z * Z)) : Z :=
+  len (filter (fun p => fst p =? snd p) (combine (rng n) (component_labels n E))).
+
+(* all boolean vectors of length nv, and the number of them that satisfy a list of builder calls
+   (variable i is read at position i-1) *)
+Fixpoint bool_vectors (nv : nat) : list (list bool) :=
+  match nv with
+  | O => [[]]
+  | S k => map (cons false) (bool_vectors k) ++ map (cons true) (bool_vectors k)
+  end.
+Definition assignment_of (bs : list bool) : Z -> bool := fun v => nth (Z.to_nat (v - 1)) bs false.
+Definition count_models (nv : Z) (l : list ir) : Z :=
+  len (filter (fun bs => irs_hold (assignment_of bs) l) (bool_vectors (Z.to_nat nv))).
+
+(* the two directions that are NOT proved here (tested by enumeration in harness/c02.py) *)
+Definition tseitin_sat_of_even_components_statement : Prop :=
+  forall n E ch, graph_wf n E = true ->
+    (forall S, closed_under_edges S E -> charge_parity ch S n = false) ->
+    exists a, irs_hold a (tseitin_ir n E ch) = true.
+Definition tseitin_model_count_statement : Prop :=
+  forall n E ch, graph_wf n E = true ->
+    (exists a, irs_hold a (tseitin_ir n E ch) = true) ->
+    count_models (tseitin_numvar E) (tseitin_ir n E ch) = 2 ^ (len E - n + num_components n E).
